@@ -44,10 +44,12 @@ RECURSIVE SubSums(_)
 SubSums(seq) == IF seq = <<>> THEN {0}
                 ELSE LET R == SubSums(Tail(seq)) IN R \cup {Head(seq) + x : x \in R}
 Sums(s) == SubSums(<<s.bp>> \o s.pw)
-\* the previous commit exactly on the boundary: floor(2T/3) (not more than two thirds) and
-\* one more (more than two thirds), and the whole commit
-Floor23(s) == (2 * Tot(s)) \div 3
-Boundary(s) == {Floor23(s), Floor23(s) + 1} \cap Sums(s)
+\* the previous commit exactly on the boundary: the largest power a set of precommits can
+\* carry that is not more than two thirds of the total (floor(2T/3) when the powers allow
+\* it) and the smallest that is (floor(2T/3)+1 when they do)
+Below(s) == CHOOSE x \in Sums(s) : 3 * x <= 2 * Tot(s) /\ \A y \in Sums(s) : 3 * y <= 2 * Tot(s) => y <= x
+Above(s) == CHOOSE x \in Sums(s) : 3 * x > 2 * Tot(s) /\ \A y \in Sums(s) : 3 * y > 2 * Tot(s) => x <= y
+Boundary(s) == {Below(s), Above(s)}
 
 (* ---- block classes --------------------------------------------------------- *)
 UpTo1 == {{c} : c \in Clauses} \cup {{}}                             \* the control and every clause alone
@@ -71,6 +73,7 @@ NoSeconds(s, b) == {}
 
 (* ---- two blocks of one Byzantine proposer ----------------------------------- *)
 \* first blocks of the two-block instances
+BlocksTwoQ(s) == Full(s, {{}, {"basic"}})
 BlocksTwo(s) == Full(s, {{}, {"basic"}, {"chain"}})
 BlocksTwoBig(s) == Full(s, {{}, {"basic"}, {"chain"}, {"app"}, {"ev", "evFull"}})
 \* the rounds in which the Byzantine validator is the proposer
@@ -81,9 +84,13 @@ HeaderClauses == {"chain", "height", "lastId", "consHash", "valHash"}
 TwinsOf(b, More) ==
   IF "basic" \in b.c THEN {b.c \ {"basic"}}                 \* B had the foreign body: B2 is the genuine block
   ELSE {(b.c \cap HeaderClauses) \cup {"basic"} \cup m : m \in More}
-SecondsOf(s, b, More, Fresh) ==
-  {[rel |-> "twin", c |-> c, lcp |-> Tot(s), r |-> r] : c \in TwinsOf(b, More), r \in ByzRounds(s)}
-  \cup {[rel |-> "fresh", c |-> c, lcp |-> Tot(s), r |-> r] : c \in Fresh, r \in ByzRounds(s) \ {0}}
-SecondsTwo(s, b)    == SecondsOf(s, b, {{}}, IF b.c = {} THEN {{"chain"}} ELSE {{}})
-SecondsTwoBig(s, b) == SecondsOf(s, b, {{}, {"lastCommit"}, {"ev", "evFull"}, {"app"}}, {{}, {"chain"}})
+SecondsOf(s, b, More, Fresh, In) ==
+  {[rel |-> "twin", c |-> c, lcp |-> Tot(s), r |-> r] : c \in TwinsOf(b, More), r \in ByzRounds(s) \cap In}
+  \cup {[rel |-> "fresh", c |-> c, lcp |-> Tot(s), r |-> r] : c \in Fresh, r \in ByzRounds(s) \cap In}
+FreshFor(b) == IF b.c = {} THEN {{"chain"}} ELSE {{}}
+\* the second block is built in the round of the first / in a later round / in either
+SecondsSame(s, b)   == SecondsOf(s, b, {{}}, FreshFor(b), {0})
+SecondsLater(s, b)  == SecondsOf(s, b, {{}}, FreshFor(b), 1..MaxRound)
+SecondsTwo(s, b)    == SecondsOf(s, b, {{}}, FreshFor(b), 0..MaxRound)
+SecondsTwoBig(s, b) == SecondsOf(s, b, {{}, {"lastCommit"}, {"ev", "evFull"}, {"app"}}, {{}, {"chain"}}, 0..MaxRound)
 =============================================================================
